@@ -59,7 +59,7 @@ Definition iced_of_sup (r : reg) : outcome reg :=
   if sup_to_iced_ok r then Ok r else Panic PRegConv.
 
 (* SupportedSegmentRegister *)
-Inductive segreg := SegDS | SegES | SegSS | SegFS | SegGS.
+Inductive segreg := SegCS | SegDS | SegES | SegSS | SegFS | SegGS.
 
 Record memop := {
   mo_base : option reg;
